@@ -578,6 +578,8 @@ class ClockTask():
             beats = self.clock.secs2beats(time)
             delta = self.task.__awake__(self.clock)
             if isinstance(delta, (int, float)) and not isinstance(delta, bool):
+                if beats + delta == float('inf'):
+                    return  # Never rescheduled (as sched and the rt clocks).
                 self.beats = beats + delta
                 self.scheduler.add(self.clock.beats2secs(self.beats), self)
         except stm.StopStream:
